@@ -623,4 +623,68 @@ func c05(c *Ctx) {
 		}
 		c.Res.Count("dispatcher-probes", 1)
 	}
+
+	// ---- what the dispatchers return is the decoding of the datagram it was given - and stays that: a later dispatch (of the same
+	// function code or another) does not change a message returned earlier
+	{
+		type held struct {
+			v    any
+			enc  string
+			what string
+		}
+		ring := []held{}
+		check := func(h held) bool {
+			enc, err := codec.Marshal(h.v)
+			if err != nil || string(enc) != h.enc {
+				c.Res.Violate("C05:dispatch:result-changes-after-a-later-dispatch", fmt.Sprintf("the message the dispatcher returned for %s no longer encodes to the datagram it was decoded from after later datagrams were dispatched (now %x, err %v)", h.what, enc, err), map[string]any{"datagram": wk.Hex([]byte(h.enc))}, caseNo)
+				return false
+			}
+			return true
+		}
+		ops := reqOps()
+		bad := 0
+		for i := 0; i < c.N(3000, 30000) && bad < 3; i++ {
+			caseNo++
+			op := ops[r.Pick(len(ops))]
+			if i%5 < 3 && len(ring) > 0 {
+				op = ops[(i/7)%len(ops)] // the same few function codes come back again and again
+			}
+			a, _ := r.Args(op)
+			serial := r.Serial()
+			var msg []byte
+			var v any
+			var err error
+			side := "request"
+			if i%2 == 0 || op.NoReply || op.Discovery {
+				msg = op.Request(serial, a)
+				v, err = messages.UnmarshalRequest(msg)
+			} else {
+				side = "reply"
+				msg = validReply(r, op, serial, a)
+				if msg == nil {
+					continue
+				}
+				v, err = messages.UnmarshalResponse(msg)
+			}
+			c.Res.Eval(1)
+			if err != nil || v == nil {
+				continue // what the dispatcher accepts is judged above
+			}
+			enc, merr := codec.Marshal(v)
+			if merr != nil {
+				continue
+			}
+			for _, h := range ring {
+				if !check(h) {
+					bad++
+					break
+				}
+			}
+			ring = append(ring, held{v, string(enc), fmt.Sprintf("a %s %s (function 0x%02x)", op.Name, side, op.Fn)})
+			if len(ring) > 12 {
+				ring = ring[1:]
+			}
+			c.Res.Count("dispatcher-results-held-across-later-dispatches", 1)
+		}
+	}
 }
